@@ -445,6 +445,13 @@ func (m *Machine) applyContract(st *State, fr *Frame, instr ssa.Instruction, fc 
 			}
 		}
 	}
+	// the call event: argument contents as they are at the call
+	evArgs := args
+	if fval != nil {
+		// dynamic call: the invoked function value is recorded after the arguments
+		evArgs = append(append([]Value{}, args...), fval)
+	}
+	callEv := m.newEvent(st, name, evArgs)
 	// effects
 	if !fc.Pure && !st.pure {
 		m.contractHavoc(st, fr, fc, name, bind, fn, args)
@@ -530,12 +537,9 @@ func (m *Machine) applyContract(st *State, fr *Frame, instr ssa.Instruction, fc 
 		st.assume(t)
 	}
 	st.definable = saved
-	evArgs := args
-	if fval != nil {
-		// dynamic call: the invoked function value is recorded after the arguments
-		evArgs = append(append([]Value{}, args...), fval)
-	}
-	m.addEvent(st, name, evArgs, rets)
+	callEv.Rets = rets
+	st.events = append(st.events, callEv)
+	m.trace(st, "ev:"+name)
 	return rets
 }
 
@@ -952,6 +956,21 @@ func (m *Machine) enterLoopHeader(st *State, fr *Frame, from, header *ssa.BasicB
 			}
 			savedBase := st.evBase
 			st.evBase = cut.evBase
+			// X_next: the value the loop-carried variable X takes for the next iteration
+			for _, ins := range header.Instrs {
+				phi, ok := ins.(*ssa.Phi)
+				if !ok {
+					break
+				}
+				for ei, pb := range header.Preds {
+					if pb == from && phi.Comment != "" {
+						func() {
+							defer func() { recover() }()
+							bind[phi.Comment+"_next"] = m.val(st, fr, phi.Edges[ei])
+						}()
+					}
+				}
+			}
 			for i, it := range spec.Iters {
 				if m.onlyProp != "" {
 					tg := it.Tags
@@ -1484,10 +1503,17 @@ func (m *Machine) loopExits(st *State, fr *Frame, from, target *ssa.BasicBlock) 
 		// the loop is left when control reaches the block that follows it (the header's successor
 		// outside the body, which is also where break statements jump to)
 		isDone := false
+		hasDoneSucc := false
 		for _, sblk := range h.Succs {
-			if !li.body[h][sblk] && sblk == target {
-				isDone = true
+			if !li.body[h][sblk] {
+				hasDoneSucc = true
+				if sblk == target {
+					isDone = true
+				}
 			}
+		}
+		if !hasDoneSucc && li.body[h][from] && !li.body[h][target] {
+			isDone = true // loops left only from inside (for { ... }): any edge out of the body
 		}
 		if !isDone || from == target {
 			continue
